@@ -1234,7 +1234,9 @@ func main() {
 		"interleavings inside a region without synchronisation operations are not explored; unsynchronised accesses are the business of the -race pass, which is dynamic and not exhaustive",
 		"the cooperative runtime models RWMutex writer preference with an explicit announce step",
 	})
-	if harnessErrors > 0 {
+	if harnessErrors > 0 && rc == 0 {
+		// no verdict for the scenarios that diverged.  (With violations found elsewhere the verdict is
+		// theirs: each is replayable by itself; the harness errors stay on stderr.)
 		os.Exit(2)
 	}
 	os.Exit(rc)
